@@ -550,6 +550,10 @@ func streamTruthNest(seed uint64, idx int) caseT {
 				// an operand that fails when evaluated: `||` / `&&` must not evaluate it unless needed
 				return g.r.pick([]string{"abs(`\"x\"`)", "nosuchfn(@)", "length(`1`)", "`[1]`[::0]", "abs(c)"})
 			}
+			if g.r.chance(6) {
+				// strings that are not valid UTF-8 (raw string literals): equal only to themselves
+				return g.r.pick([]string{"'caf\xe9'", "'caf\xe8'", "'\xff'", "'\xfe'", "'caf\xef\xbf\xbd'", "'\xc3'"})
+			}
 			if g.r.chance(40) {
 				return g.r.pick([]string{"a", "b", "c"})
 			}
